@@ -83,9 +83,32 @@ where
     id
 }
 
+/// Scheduling point before `thread` parks or is unparked. Whether a `park`
+/// finds the token of an `unpark` depends on their order, so the two are
+/// dependent operations on an object that belongs to the thread.
+pub(crate) fn branch_park(thread: thread::Id, location: Location) {
+    if std::thread::panicking() {
+        return;
+    }
+
+    let object = match execution(|execution| execution.threads[thread].park_object) {
+        Some(object) => object,
+        None => {
+            let object = Notify::new(false, false);
+            execution(|execution| execution.threads[thread].park_object = Some(object));
+            object
+        }
+    };
+
+    object.branch(location);
+}
+
 /// Blocks the current thread until it is unparked, unless it has already been
 /// unparked since the last call to `park`.
 pub(crate) fn park(location: Location) {
+    let current = execution(|execution| execution.threads.active_id());
+    branch_park(current, location);
+
     let switch = execution(|execution| {
         let thread = execution.threads.active_id();
         let active = execution.threads.active_mut();
